@@ -23,6 +23,11 @@ pub fn exec_oracle(kind: &str, fields: &[&str]) -> String {
         "S_C17E" => oracle_c17e(fields),
         "S_C16" => oracle_c16(fields),
         "S_C16T" => oracle_c16t(fields),
+        "S_C08" => oracle_c08(fields),
+        "S_C08L" => oracle_c08l(fields),
+        "S_C08N" => oracle_c08n(fields),
+        "S_C08O" => oracle_c08o(fields),
+        "S_C08D" => oracle_c08d(fields),
         "S_C11A" => oracle_c11_adapt(fields),
         "S_C11ACC" => oracle_c11_accept(fields),
         "S_C11X" => oracle_c11_axisswap(fields),
@@ -1483,6 +1488,387 @@ fn oracle_c20(fields: &[&str]) -> String {
         let want: String = (0..ncol).map(|i| format!("{:.*} ", dec, c[i])).collect();
         if *line != want {
             return format!("oracle FAIL line {k}: kp prints {:?} but the library computes {:?}", line, want);
+        }
+    }
+    "oracle pass".to_string()
+}
+
+// ----- C08: grid look-up --------------------------------------------------------------------------
+
+struct RefGrid {
+    lat_n: f64,
+    lat_s: f64,
+    lon_w: f64,
+    lon_e: f64,
+    dlat: f64,
+    dlon: f64,
+    rows: usize,
+    cols: usize,
+    bands: usize,
+    /// node values in internal convention: [row][col][band]
+    vals: Vec<f64>,
+}
+
+impl RefGrid {
+    fn node(&self, i: usize, j: usize, b: usize) -> f64 {
+        self.vals[(i * self.cols + j) * self.bands + b]
+    }
+    /// strictly inside or on the border (+ margin in cell units)
+    fn contains(&self, lon: f64, lat: f64, margin: f64) -> bool {
+        lat >= self.lat_s - margin * self.dlat && lat <= self.lat_n + margin * self.dlat && lon >= self.lon_w - margin * self.dlon && lon <= self.lon_e + margin * self.dlon
+    }
+    /// bilinear interpolation in the cell holding the point (the nearest cell outside the grid)
+    fn value(&self, lon: f64, lat: f64, b: usize) -> (f64, f64, f64) {
+        let fi = (self.lat_n - lat) / self.dlat;
+        let fj = (lon - self.lon_w) / self.dlon;
+        let j0 = (fj.floor().max(0.0) as usize).min(self.cols - 2);
+        let i1 = (fi.ceil().max(1.0) as usize).min(self.rows - 1);
+        let i0 = i1 - 1;
+        let a = fj - j0 as f64;
+        let c = i1 as f64 - fi;
+        let (ll, lr, ul, ur) = (self.node(i1, j0, b), self.node(i1, j0 + 1, b), self.node(i0, j0, b), self.node(i0, j0 + 1, b));
+        let v = (1.0 - a) * ((1.0 - c) * ll + c * ul) + a * ((1.0 - c) * lr + c * ur);
+        let lo = ll.min(lr).min(ul).min(ur);
+        let hi = ll.max(lr).max(ul).max(ur);
+        (v, lo, hi)
+    }
+}
+
+/// internal convention of Gravsoft node values (see `normalize_gravsoft_grid_values`)
+fn internal_values(file: &[f64], bands: usize, projected: bool) -> Vec<f64> {
+    if projected || bands == 1 {
+        return file.to_vec();
+    }
+    let mut out = vec![];
+    for node in file.chunks(bands) {
+        if bands == 2 {
+            out.push((node[1] / 3600.0).to_radians());
+            out.push((node[0] / 3600.0).to_radians());
+        } else {
+            out.push(node[1] / 1000.0);
+            out.push(node[0] / 1000.0);
+            out.push(node[2] / 1000.0);
+        }
+    }
+    out
+}
+
+fn approx(a: f64, b: f64, scale: f64) -> bool {
+    (a - b).abs() <= 4e-7 * scale.max(a.abs()).max(b.abs()) + 1e-13
+}
+
+fn oracle_c08(fields: &[&str]) -> String {
+    let g = match crate::exec::decode_grid("gravsoft", fields[0]) {
+        Ok(g) => g,
+        Err(e) => return format!("oracle FAIL well-formed grid rejected ({})", err_class(&e)),
+    };
+    let margin = parse_f(fields[1]);
+    let h: Vec<&str> = fields[2].split(',').collect();
+    let f = |k: usize| parse_f(h[k]);
+    let (rows, cols, bands): (usize, usize, usize) = (h[6].parse().unwrap(), h[7].parse().unwrap(), h[8].parse().unwrap());
+    let projected = h[9] == "1";
+    let u = if projected { 1.0 } else { std::f64::consts::PI / 180.0 };
+    let file: Vec<f64> = fields[3].split(',').map(parse_f).collect();
+    let r = RefGrid { lat_n: f(0) * u, lat_s: f(1) * u, lon_w: f(2) * u, lon_e: f(3) * u, dlat: f(4) * u, dlon: f(5) * u, rows, cols, bands, vals: internal_values(&file, bands, projected) };
+    if g.bands() != bands {
+        return format!("oracle FAIL {} bands decoded, the file has {}", g.bands(), bands);
+    }
+    let pts = crate::exec::parse_points(fields[4]);
+    let classes: Vec<&str> = fields[5].split(',').collect();
+    let scale = r.vals.iter().fold(0.0f64, |a, b| a.max(b.abs()));
+    for (p, class) in pts.iter().zip(classes.iter()) {
+        let got = g.at(p, margin);
+        // stay clear of the rounding of the border test itself
+        let eps = 1e-9;
+        let surely_in = r.contains(p[0], p[1], margin - eps);
+        let surely_out = !r.contains(p[0], p[1], margin + eps);
+        match got {
+            None => {
+                if surely_in {
+                    return format!("oracle FAIL point ({}, {}) [{class}] is within the grid + margin {margin} but no value is delivered", p[0], p[1]);
+                }
+            }
+            Some(v) => {
+                if surely_out {
+                    return format!("oracle FAIL point ({}, {}) [{class}] is outside the grid + margin {margin} but a value is delivered", p[0], p[1]);
+                }
+                for b in 0..bands {
+                    let (want, lo, hi) = r.value(p[0], p[1], b);
+                    if !approx(v[b], want, scale) {
+                        return format!("oracle FAIL band {b} at ({}, {}) [{class}]: {} delivered, bilinear interpolation of the nodes gives {}", p[0], p[1], v[b], want);
+                    }
+                    if *class == "interior" || *class == "edge" || *class == "node" {
+                        let slack = 4e-7 * scale + 1e-13;
+                        if v[b] < lo - slack || v[b] > hi + slack {
+                            return format!("oracle FAIL band {b} at ({}, {}): {} outside the range [{lo}, {hi}] of the corner values", p[0], p[1], v[b]);
+                        }
+                    }
+                }
+            }
+        }
+    }
+    "oracle pass".to_string()
+}
+
+fn oracle_c08l(fields: &[&str]) -> String {
+    let k: usize = fields[0].parse().unwrap_or(0);
+    let mut grids = vec![];
+    for i in 0..k {
+        match crate::exec::decode_grid("gravsoft", fields[1 + i]) {
+            Ok(g) => grids.push(g),
+            Err(e) => return format!("oracle FAIL well-formed grid rejected ({})", err_class(&e)),
+        }
+    }
+    let null = fields[1 + k] == "1";
+    for p in crate::exec::parse_points(fields[2 + k]) {
+        let mut want = None;
+        for m in [0.0, 0.5] {
+            if want.is_none() {
+                want = grids.iter().find_map(|g| g.at(&p, m));
+            }
+        }
+        if want.is_none() && null {
+            want = Some(Coor4D::origin());
+        }
+        let got = grids_at(&grids, &p, null);
+        if crate::exec::dump_at(got) != crate::exec::dump_at(want) {
+            return format!("oracle FAIL grids_at at ({}, {}): {} but the first containing grid (then the first within the margin{}) gives {}", p[0], p[1], crate::exec::dump_at(got), if null { ", then the null grid" } else { "" }, crate::exec::dump_at(want));
+        }
+    }
+    "oracle pass".to_string()
+}
+
+fn oracle_c08n(fields: &[&str]) -> String {
+    let g = match crate::exec::decode_grid("ntv2", fields[0]) {
+        Ok(g) => g,
+        Err(e) => return format!("oracle FAIL well-formed NTv2 file rejected ({})", err_class(&e)),
+    };
+    let margin = parse_f(fields[1]);
+    let n: usize = fields[2].parse().unwrap_or(0);
+    let u = std::f64::consts::PI / 180.0;
+    let mut subs: Vec<(String, String, RefGrid)> = vec![];
+    for i in 0..n {
+        let h: Vec<&str> = fields[3 + 4 * i + 2].split(',').collect();
+        let f = |k: usize| parse_f(h[k]);
+        let (rows, cols): (usize, usize) = (h[6].parse().unwrap(), h[7].parse().unwrap());
+        let file: Vec<f64> = fields[3 + 4 * i + 3].split(',').map(parse_f).collect();
+        // file bands: (lat shift, lon shift) in arc seconds; internal: (lon, lat) in radians
+        let mut vals = vec![];
+        for node in file.chunks(2) {
+            vals.push((node[1] / 3600.0).to_radians());
+            vals.push((node[0] / 3600.0).to_radians());
+        }
+        subs.push((fields[3 + 4 * i].to_string(), fields[3 + 4 * i + 1].to_string(), RefGrid { lat_n: f(0) * u, lat_s: f(1) * u, lon_w: f(2) * u, lon_e: f(3) * u, dlat: f(4) * u, dlon: f(5) * u, rows, cols, bands: 2, vals }));
+    }
+    let depth = |name: &str| -> usize {
+        let mut d = 0;
+        let mut cur = name.to_string();
+        while let Some(s) = subs.iter().find(|s| s.0 == cur) {
+            if s.1 == "NONE" {
+                break;
+            }
+            cur = s.1.clone();
+            d += 1;
+        }
+        d
+    };
+    let scale = subs.iter().flat_map(|s| s.2.vals.iter()).fold(0.0f64, |a, b| a.max(b.abs()));
+    for p in crate::exec::parse_points(fields[3 + 4 * n]) {
+        // only points well away from every border line: the border rules have a 1e-6 cell tolerance
+        let near = subs.iter().any(|s| {
+            let r = &s.2;
+            let dl = ((p[0] - r.lon_w) / r.dlon).abs().min(((p[0] - r.lon_e) / r.dlon).abs());
+            let dp = ((p[1] - r.lat_s) / r.dlat).abs().min(((p[1] - r.lat_n) / r.dlat).abs());
+            dl < 1e-3 || dp < 1e-3
+        });
+        let got = g.at(&p, margin);
+        if near {
+            continue;
+        }
+        // the deepest sub-grid containing the point
+        let best = subs.iter().filter(|s| s.2.contains(p[0], p[1], 0.0)).max_by_key(|s| depth(&s.0));
+        match (best, got) {
+            (Some(s), Some(v)) => {
+                for b in 0..2 {
+                    let (want, _, _) = s.2.value(p[0], p[1], b);
+                    if !approx(v[b], want, scale) {
+                        return format!("oracle FAIL NTv2 band {b} at ({}, {}): {} delivered, the deepest sub-grid {} gives {}", p[0], p[1], v[b], s.0, want);
+                    }
+                }
+            }
+            (Some(s), None) => return format!("oracle FAIL NTv2: no value at ({}, {}) inside sub-grid {}", p[0], p[1], s.0),
+            (None, Some(v)) => {
+                // within the margin of a root grid this is legitimate
+                let root_ok = subs.iter().any(|s| s.1 == "NONE" && s.2.contains(p[0], p[1], margin + 1e-9));
+                if !root_ok {
+                    return format!("oracle FAIL NTv2: value {:?} delivered at ({}, {}) outside every sub-grid and margin", v, p[0], p[1]);
+                }
+            }
+            (None, None) => {}
+        }
+    }
+    "oracle pass".to_string()
+}
+
+/// sign, order and unit conventions of the grid operators, on the shipped grids
+fn oracle_c08o(fields: &[&str]) -> String {
+    let def = unescape(fields[0]);
+    let mut ctx = Plain::default();
+    let op = match ctx.op(&def) {
+        Ok(op) => op,
+        Err(e) => return format!("oracle FAIL {def} not instantiable ({})", err_class(&e)),
+    };
+    let pts = vec![
+        Coor4D::geo(55.0, 12.0, 100.0, 2020.0),
+        Coor4D::geo(56.5, 10.25, 0.0, 2020.0),
+        Coor4D::geo(54.0, 8.0, 10.0, 2020.0),
+        Coor4D::geo(58.0, 16.0, 10.0, 2020.0),
+        Coor4D::geo(41.3874, 2.1686, 0.0, 0.0),
+        Coor4D::geo(0.0, 100.0, 0.0, 0.0),
+    ];
+    let first_grid = def.split("grids=").nth(1).unwrap_or("").split(|c| c == ',' || c == ' ').next().unwrap_or("").trim_start_matches('@').to_string();
+    for p in pts {
+        let mut d = if def.starts_with("deformation") { vec![Ellipsoid::default().cartesian(&p)] } else { vec![p] };
+        let before = d[0];
+        let n = ctx.apply(op, Fwd, &mut d).unwrap_or(usize::MAX);
+        if n > 1 {
+            return "oracle FAIL count".to_string();
+        }
+        if n == 0 {
+            if !(d[0][0].is_nan() && d[0][1].is_nan()) && !def.contains("@null") {
+                return format!("oracle FAIL {def}: a tuple not counted was not set to NaN: {:?}", d[0]);
+            }
+            continue;
+        }
+        if def.starts_with("gridshift") && !def.contains(',') {
+            let grid = match ctx.get_grid(&first_grid) {
+                Ok(g) => g,
+                Err(_) => continue,
+            };
+            let Some(corr) = grid.at(&before, 0.5) else { continue };
+            if grid.bands() == 1 {
+                // geoid heights are subtracted in the forward direction
+                if (d[0][2] - (before[2] - corr[0])).abs() > 1e-9 || d[0][0] != before[0] || d[0][1] != before[1] {
+                    return format!("oracle FAIL {def}: forward must subtract the geoid height {} from {}: got {}", corr[0], before[2], d[0][2]);
+                }
+            } else {
+                // datum shifts are added in the forward direction
+                if (d[0][0] - (before[0] + corr[0])).abs() > 1e-15 || (d[0][1] - (before[1] + corr[1])).abs() > 1e-15 || d[0][2] != before[2] {
+                    return format!("oracle FAIL {def}: forward must add the shift ({}, {}) to ({}, {}): got ({}, {})", corr[0], corr[1], before[0], before[1], d[0][0], d[0][1]);
+                }
+            }
+        }
+        // the inverse undoes the forward inside coverage (not for the one-way deflection, nor raw output)
+        // (nor for the test file whose sub-grid deliberately disagrees with its parent: the round trip
+        // across such a boundary is not defined)
+        if !def.starts_with("deflection") && !def.contains(" raw") && !def.contains("with_subgrid") {
+            let fwd = d[0];
+            let m = ctx.apply(op, Inv, &mut d).unwrap_or(usize::MAX);
+            if m == 1 {
+                let tol = if def.starts_with("deformation") { 1e-3 } else { 1e-9 };
+                for i in 0..3 {
+                    if (d[0][i] - before[i]).abs() > tol * (1.0 + before[i].abs() * 1e-7) {
+                        return format!("oracle FAIL {def}: inverse of forward gives {} for {} (element {i}, via {})", d[0][i], before[i], fwd[i]);
+                    }
+                }
+            }
+        }
+    }
+    "oracle pass".to_string()
+}
+
+/// grid operators over a LIST of in-memory grids with constant node values: which grid was used
+/// is read off the correction; it must be the first grid containing the point, then the first
+/// one within the half-cell margin
+fn oracle_c08d(fields: &[&str]) -> String {
+    let kind = fields[0]; // gridshift | deformation | deflection
+    let k: usize = fields[1].parse().unwrap_or(0);
+    let mut ctx = crate::exec::GridCtx::new();
+    let mut refs: Vec<RefGrid> = vec![];
+    let mut names = vec![];
+    for i in 0..k {
+        let text = unescape(fields[2 + 2 * i]);
+        let h: Vec<f64> = fields[3 + 2 * i].split(',').map(parse_f).collect();
+        let g = match BaseGrid::gravsoft(text.as_bytes()) {
+            Ok(g) => g,
+            Err(e) => return format!("oracle FAIL well-formed grid rejected ({})", err_class(&e)),
+        };
+        let name = format!("g{i}.grid");
+        ctx.grids.insert(name.clone(), std::sync::Arc::new(g));
+        names.push(name);
+        let u = std::f64::consts::PI / 180.0;
+        refs.push(RefGrid { lat_n: h[0] * u, lat_s: h[1] * u, lon_w: h[2] * u, lon_e: h[3] * u, dlat: h[4] * u, dlon: h[5] * u, rows: 2, cols: 2, bands: 1, vals: vec![] });
+    }
+    let null = fields[2 + 2 * k] == "1";
+    let pts = crate::exec::parse_points(fields[3 + 2 * k]);
+    let mut def = match kind {
+        "deformation" => format!("deformation raw dt=1 grids={}", names.join(",")),
+        "deflection" => format!("deflection grids={}", names.join(",")),
+        _ => format!("gridshift grids={}", names.join(",")),
+    };
+    if null {
+        def += ",@null";
+    }
+    let op = match ctx.op(&def) {
+        Ok(op) => op,
+        Err(e) => return format!("oracle FAIL {def} not instantiable ({})", err_class(&e)),
+    };
+    for p in pts {
+        let eps = if kind == "deflection" { 1e-6 } else { 1e-9 };
+        // expected grid: first containing at margin 0, then first within margin 0.5
+        let pick = |m: f64| refs.iter().position(|r| r.contains(p[0], p[1], m));
+        let (sure0, maybe0) = (pick(-eps), pick(eps));
+        let (sure5, maybe5) = (pick(0.5 - eps), pick(0.5 + eps));
+        let expected: Option<usize> = if sure0.is_some() && sure0 == maybe0 {
+            sure0
+        } else if maybe0.is_some() {
+            continue; // on a border line: not decided here
+        } else if sure5 == maybe5 {
+            sure5
+        } else {
+            continue;
+        };
+        let input = match kind {
+            "deformation" => Ellipsoid::default().cartesian(&Coor4D([p[0], p[1], 0., 2000.])),
+            "deflection" => Coor4D([p[1].to_degrees(), p[0].to_degrees(), 10., 2000.]),
+            _ => Coor4D([p[0], p[1], 10., 2000.]),
+        };
+        let mut d = vec![input];
+        let n = ctx.apply(op, Fwd, &mut d).unwrap_or(usize::MAX);
+        // which grid was used? constant node values i+1 (in the grid's file unit)
+        let used: Option<usize> = if n == 0 {
+            None
+        } else {
+            match kind {
+                "deformation" => {
+                    let len = d[0][3] * 1000.0; // mm/yr * 1 yr
+                    let i = (len / 3f64.sqrt()).round() as i64 - 1;
+                    if i >= 0 && (i as usize) < k && (len - (i + 1) as f64 * 3f64.sqrt()).abs() < 1e-3 { Some(i as usize) } else { Some(usize::MAX) }
+                }
+                "gridshift" => {
+                    let shift = ((d[0][0] - input[0]).to_degrees() * 3600.0).round() as i64 - 1;
+                    if d[0][0] == input[0] { Some(usize::MAX - 1) } else if shift >= 0 && (shift as usize) < k { Some(shift as usize) } else { Some(usize::MAX) }
+                }
+                _ => Some(usize::MAX - 2),
+            }
+        };
+        match (expected, used) {
+            (None, None) => {
+                if null {
+                    return format!("oracle FAIL {def}: point ({}, {}) outside all grids must pass with the null grid", p[0], p[1]);
+                }
+            }
+            (None, Some(u)) => {
+                if !(null && (u == usize::MAX - 1 || (kind == "deformation" && d[0][3].is_nan()) || kind == "deformation")) && kind != "deflection" {
+                    return format!("oracle FAIL {def}: point ({}, {}) is outside all grids and margins but was transformed (grid {u})", p[0], p[1]);
+                }
+            }
+            (Some(e), None) => return format!("oracle FAIL {def}: point ({}, {}) lies in grid {e} (or its margin) but was failed", p[0], p[1]),
+            (Some(e), Some(u)) => {
+                if kind != "deflection" && u != e {
+                    return format!("oracle FAIL {def}: point ({}, {}) must take its value from grid {e} (first hit) but grid {u} was used", p[0], p[1]);
+                }
+            }
         }
     }
     "oracle pass".to_string()
